@@ -288,6 +288,7 @@ PowSetSmall   == {-2, 0, 1, 2, 3, 5}
 OpsArith == {"load", "add", "sub", "mul", "div", "neg", "neg_ref", "powi", "recip", "inv"}
 OpsForms == {"load"} \cup BinOps \cup FOps \cup {"neg", "neg_ref", "inv", "recip", "sum", "product",
                                                "mul_add", "from_f", "zero", "one", "abs_sub"}
+OpsPow == {"load", "powi", "powf", "powd", "recip", "inv", "mul", "div", "sqrt", "product"}
 OpsElem == {"load"} \cup UnOps \cup {"atan2", "recip", "powd"}
 AllOps == {"load"} \cup BinOps \cup FOps \cup UnOps \cup Preds \cup Cmps
           \cup {"powi", "powf", "powd", "atan2", "abs_sub", "mul_add", "sum", "product",
